@@ -60,12 +60,13 @@ func cmdVC(args []string) {
 	fmt.Printf("loaded in %.1fs\n", time.Since(t0).Seconds())
 	var results []*FuncResult
 	for _, k := range fs.Args() {
-		var r *FuncResult
+		var rs []*FuncResult
 		if strings.HasPrefix(k, "lemma:") {
-			r = verifyLemma(prog, strings.TrimPrefix(k, "lemma:"))
+			rs = []*FuncResult{verifyLemma(prog, strings.TrimPrefix(k, "lemma:"))}
 		} else {
-			r = verifyFunc(prog, expandKey(k))
+			rs = verifyAll(prog, expandKey(k))
 		}
+		for _, r := range rs {
 		results = append(results, r)
 		for _, e := range r.Errors {
 			fmt.Println("ERROR", e)
@@ -83,6 +84,7 @@ func cmdVC(args []string) {
 			fmt.Println("store:", u)
 		}
 		fmt.Printf("%s: %d obligations, %d facts, %d decls\n", r.Name, len(r.Obls), len(r.Facts), len(r.Decls))
+		}
 	}
 	work := "/verif/work/vc"
 	os.RemoveAll(work)
